@@ -21,6 +21,13 @@ fn scenarios(id: &str, args: &Args) -> Option<Vec<explore::Scenario>> {
     // fixed end-to-end histories that belong to the property (also for properties whose main engine is another one)
     let extra = s_audit::extra(id);
     let main = scenarios_main(id, args);
+    // debugging aid: SIM_ONLY=<substring> restricts the run to the scenarios whose name contains it
+    if let Ok(only) = std::env::var("SIM_ONLY") {
+        let mut v: Vec<explore::Scenario> = main.unwrap_or_default();
+        v.extend(extra);
+        v.retain(|s| s.name.contains(&only));
+        return Some(v);
+    }
     match (main, extra.is_empty()) {
         (None, true) => None,
         (None, false) => Some(extra),
